@@ -245,7 +245,27 @@ pub fn scenario(lab: &mut H2Lab, case: &Case, tag: &str) -> CheckResult {
     let n = case.streams.len();
     let storm = case.streams.iter().any(|s| capped(&s.req_frames, s.req_len, n, true).1 || (case.backend_h2 && capped(&s.resp_frames, s.resp_len, n, true).1));
     let hol = hol_shape(case);
-    match scenario_inner(lab, case, tag) {
+    // The session loop's iteration budget (MAX_LOOP_ITERATIONS, the root of the frame-storm finding) also
+    // ends sessions whose peers keep both sides busy for a whole readiness pass, e.g. a multi-megabyte
+    // transfer at full speed: sozu counts every such kill in `http.infinite_loop.error`. A scenario that did
+    // not finish while that counter moved ran into the known finding, whatever its shape.
+    let loop_kills_before = lab.worker.counter("http.infinite_loop.error").unwrap_or(0);
+    let outcome = scenario_inner(lab, case, tag);
+    let outcome = match outcome {
+        Err(f) if !f.signature.contains("limit-violated") && !f.signature.contains("differs") && !f.signature.contains("-body:") && lab.worker.alive() && lab.worker.counter("http.infinite_loop.error").unwrap_or(0) > loop_kills_before => {
+            if case.strict {
+                Err(Failure::new(format!("{tag}/frame-storm-session-closed"), format!("the session loop's iteration budget ended the session ({}: {})", f.signature, f.message)))
+            } else {
+                let mut rep = CaseReport::default();
+                rep.excluded_known += 1;
+                rep.class("session_ended_by_loop_iteration_budget(known)");
+                rep.class("lab_dirty");
+                Ok(rep)
+            }
+        }
+        other => other,
+    };
+    match outcome {
         Ok(mut rep) => {
             if storm {
                 rep.excluded_known += 1;
